@@ -8,17 +8,23 @@ def _inst_cases(C, tier, seed):
     U = units()
     work = os.path.join(C.CACHE, 'inst'); os.makedirs(work, exist_ok=True)
     ih = C.include_hash()
+    lib, _ = C.build_lib()
 
     def run(u):
-        key = C.sha(ih, u['src'])
+        key = C.sha(ih, u['src'], os.path.basename(lib) if (lib and u.get('link')) else '')
         res = os.path.join(work, key + '.rc')
         if os.path.exists(res):
             return u, int(open(res).read().split('\n')[0])
         f = os.path.join(work, key + '.cpp')
         open(f, 'w').write(u['src'])
-        p = subprocess.run([C.CXX, '-std=c++20', '-fsyntax-only', '-w', '-D' + C.GUARD, '-I' + os.path.join(C.REPO, 'include'), '-I/usr/include/eigen3', f],
-                           stdout=subprocess.PIPE, stderr=subprocess.STDOUT, text=True)
-        errs = [l for l in p.stdout.split('\n') if 'error' in l][:3]
+        if u.get('link'):
+            cmd = [C.CXX] + C.CXXFLAGS + ['-O0', f] + ([lib] if lib else []) + C.LDLIBS + ['-o', f + '.out']
+        else:
+            cmd = [C.CXX, '-std=c++20', '-fsyntax-only', '-w', '-D' + C.GUARD, '-I' + os.path.join(C.REPO, 'include'), '-I/usr/include/eigen3', f]
+        p = subprocess.run(cmd, stdout=subprocess.PIPE, stderr=subprocess.STDOUT, text=True)
+        if os.path.exists(f + '.out'):
+            os.remove(f + '.out')
+        errs = [l for l in p.stdout.split('\n') if 'error' in l or 'undefined reference' in l][:3]
         open(res, 'w').write('%d\n%s' % (1 if p.returncode else 0, '\n'.join(errs)))
         os.remove(f)
         return u, 1 if p.returncode else 0
